@@ -114,7 +114,7 @@ struct Sys {
 fn calibrate(slots: usize) -> usize {
     let mut m = SimpleGseMemory::new(slots, PDU_SIZE, 0, 0);
     let mut k = 0;
-    while k < 64 && m.provision_storage(mk_buf(1, PDU_SIZE)).is_ok() {
+    while k < slots + 64 && m.provision_storage(mk_buf(1, PDU_SIZE)).is_ok() {
         k += 1;
     }
     k
@@ -292,10 +292,16 @@ impl Sys {
                         if self.model.saved[slot].is_none() {
                             return Err(("save_frag-refused-on-empty-slot".into(), format!("save_frag(id {}) refused although the slot is empty", cc.frag_id)));
                         }
+                        // the property says "refused" and nothing about the offered buffer: the memory may drop it (the
+                        // trait has no way to hand it back) or keep it as a free buffer (only if it is large enough and
+                        // there is room); the saved context of the slot and everything else must be as before
                         if self.mem != snap {
-                            return Err(("save_frag-refusal-changes-memory".into(), "save_frag was refused but the memory changed".into()));
+                            let fits = self.model.free.len() < self.model.cap && self.lens[bt as usize] >= PDU_SIZE;
+                            self.model.free.push(bt);
+                            if !fits || self.audit().is_err() {
+                                return Err(("save_frag-refusal-changes-memory".into(), "save_frag was refused but the memory changed (other than by keeping the offered buffer as a free buffer)".into()));
+                            }
                         }
-                        // the refused context (and its buffer) is gone: the trait has no way to hand it back
                     }
                 }
             }
@@ -319,7 +325,7 @@ impl Sys {
         let mut free: Vec<u8> = Vec::new();
         while let Ok(b) = c.new_pdu() {
             free.push(tag_of(&b).unwrap_or(0));
-            if free.len() > 200 {
+            if free.len() > 1000 {
                 break;
             }
         }
@@ -360,7 +366,7 @@ impl Property for Prop {
         "C17"
     }
     fn rule(&self) -> &'static str {
-        "exhaustive: for memories of 1..=4 slots every operation sequence of the given depth (quick 5, thorough 7) over provision(size below / at / above the configured size), new_pdu, new_frag(id), take_frag(id) for ids {0,1,slots,slots+1,255} and save_frag(oldest held context); key = (slots, first two operations); after every operation the result is compared with an executable bag model (free-list capacity calibrated on a fresh memory, not assumed), after every sequence a drained clone is compared with the model. random: seeded sequences of 200..10000 operations incl. save under a different id and save of a foreign, shorter buffer; slots 1..=5, 7, 255 and 256 (ids 0, 1, 254, 255, 128 there). sizes: configured PDU sizes 0, 1, 255, 256, 4095, 4096, 65535..65537, 70000, 131072 x buffers of size-2..size+1. Buffers carry a tag in every byte (contents never modified). A sequence is non-trivial when it contains at least one successful save_frag; fingerprint = hash(slots, sequence)."
+        "exhaustive: for memories of 1..=4 slots every operation sequence of the given depth (quick 5, thorough 7) over provision(size below / at / above the configured size), new_pdu, new_frag(id), take_frag(id) for ids {0,1,slots,slots+1,255} and save_frag(oldest held context; a refused save may drop the offered buffer or keep it as a free buffer, nothing else may change); key = (slots, first two operations); after every operation the result is compared with an executable bag model (free-list capacity calibrated on a fresh memory, not assumed), after every sequence a drained clone is compared with the model. random: seeded sequences of 200..10000 operations incl. save under a different id and save of a foreign, shorter buffer; slots 1..=5, 7, 255 and 256 (ids 0, 1, 254, 255, 128 there). sizes: configured PDU sizes 0, 1, 255, 256, 4095, 4096, 65535..65537, 70000, 131072 x buffers of size-2..size+1. Buffers carry a tag in every byte (contents never modified). A sequence is non-trivial when it contains at least one successful save_frag; fingerprint = hash(slots, sequence)."
     }
     fn gens(&self, cx: &Cx) -> Vec<Gen> {
         let mut n = 0u64;
